@@ -44,7 +44,7 @@ ASSUMPTIONS = [
     "same-instant ordering between events follows creation order (C01)",
 ]
 EXPECTED_PROBES = ["probe.prepared_event_yielded_as_side_effect", "probe.future_awaited_again_after_resolution",
-                   "probe.same_future_twice_in_one_combinator", "probe.process_hosted_by_once_callback", "probe.forward_of_start_event_as_side_effect", "probe.exception_instance_as_value", "probe.non_native_generator", "probe.future_object_as_value", "probe.shared_leaf_woke_two", "probe.shared_empty_list_form", "probe.pre_resolved_wait", "probe.resolve_twice", "probe.nested_combinator",
+                   "probe.same_future_twice_in_one_combinator", "probe.process_hosted_by_once_callback", "probe.forward_of_start_event_as_side_effect", "probe.exception_instance_as_value", "probe.two_phase_job_rearms_its_event_from_a_hook", "probe.cancel_of_already_dispatched_event", "probe.non_native_generator", "probe.future_object_as_value", "probe.shared_leaf_woke_two", "probe.shared_empty_list_form", "probe.pre_resolved_wait", "probe.resolve_twice", "probe.nested_combinator",
                    "probe.hook_on_process", "probe.sub_generator", "probe.any_ambiguous_at_build",
                    "probe.sub_ns_delay_truncated"]
 SHRINK_SKIP = ("futures",)
@@ -179,6 +179,8 @@ def run(sc):
     counters["probe.prepared_event_yielded_as_side_effect"] = int("'prepared'" in repr(sc["procs"]))
     counters["probe.future_awaited_again_after_resolution"] = int("'again': True" in repr(sc["procs"]))
     counters["probe.forward_of_start_event_as_side_effect"] = int("'forward'" in repr(sc["procs"]))
+    counters["probe.two_phase_job_rearms_its_event_from_a_hook"] = int(any(pl.get("rearm") is not None for pl in sc.get("plain", [])))
+    counters["probe.cancel_of_already_dispatched_event"] = int("'cancel_fired'" in repr(sc["procs"]))
     counters["probe.exception_instance_as_value"] = int("'exc'" in repr(sc))
     counters["probe.process_hosted_by_once_callback"] = int(any(p.get("host_once") for p in sc["procs"]))
     counters["probe.same_future_twice_in_one_combinator"] = int(_dup_leaf(sc))
